@@ -37,6 +37,14 @@ func profileKnobs(profile string) knobs {
 	case "c08":
 		k.kinds = []int{KUnary, KClientStream}
 		k.pExtraResp, k.pCancel, k.pErr = 0.5, 0.1, 0.3
+	case "calg", "calgf":
+		// oracle calibration: the same generator on the reference transport
+		// (grpc-go over simnet); every oracle must accept what it does
+		k.transports = []string{TGRPC}
+		k.pErr, k.pPlainErr, k.pExtraResp, k.pMD, k.pHdrCalls = 0.5, 0.2, 0.2, 0.7, 0.5
+		if profile == "calg" {
+			k.pCancel, k.pDeadline, k.pAdvance, k.pCut = 0, 0, 0, 0
+		}
 	case "c10":
 		k.transports = []string{TInproc}
 		k.pCtxVals, k.pMD, k.pCreds, k.pTInt, k.pDeadline = 0.9, 0.8, 0.3, 0.5, 0.4
